@@ -2,6 +2,7 @@ package checks
 
 import (
 	"bytes"
+	"encoding/binary"
 	"fmt"
 	"github.com/contiv/libOpenflow/ofbase"
 	"net"
@@ -72,6 +73,7 @@ func TestC14Xid(t *testing.T) {
 		}
 		stopParsers := make(chan struct{})
 		var pwg sync.WaitGroup
+		var latest atomic.Uint32
 		frames := c14ParseFrames()
 		for pi := 0; pi < parsers; pi++ {
 			pwg.Add(1)
@@ -83,7 +85,15 @@ func TestC14Xid(t *testing.T) {
 						return
 					default:
 					}
-					of.Parse(frames[(i+pi)%len(frames)])
+					fr := frames[(i+pi)%len(frames)]
+					if pi%2 == 0 && len(fr) >= 8 {
+						// a peer's transaction ids are its own: they may lie anywhere, also just above what this
+						// process has handed out so far (a decoder that "keeps the counter ahead of what it has
+						// seen" then races with the drawers)
+						fr = append([]byte{}, fr...)
+						binary.BigEndian.PutUint32(fr[4:], latest.Load()+1+uint32(i%2))
+					}
+					of.Parse(fr)
 					if i%8 == 0 {
 						runtime.Gosched()
 					}
@@ -135,6 +145,9 @@ func TestC14Xid(t *testing.T) {
 						badVersion.Add(1)
 					}
 					out = append(out, h.Xid)
+					if parsers > 0 {
+						latest.Store(h.Xid)
+					}
 				}
 				ids[gi] = out
 			}(gi)
